@@ -1084,3 +1084,12 @@ func (e *Env) SetOpIdx(i int) { e.opIdx = i }
 
 // Idle waits for background work and runs the idle-time checks.
 func (e *Env) Idle() error { return e.idle(true) }
+
+// NewEnvOn prepares an executor on an existing storage whose logical contents
+// are m (used to continue with a recovered DB).
+func NewEnvOn(c *Case, fs *vfs.FS, m *model.Map) *Env {
+	e := NewEnv(c)
+	e.FS = fs
+	e.M = m
+	return e
+}
